@@ -958,9 +958,11 @@ func (e *absEnv) doCall(fr *absFrame, c *ssa.CallCommon, depth int) aval {
 			if sl, ok := underlying(c.Args[0].Type()).(*types.Slice); ok {
 				elem = sl.Elem()
 			}
+			var spare []*aobj
 			switch x := e.val(fr, c.Args[0]).(type) {
 			case avals:
 				cells = append(cells, x.cells...)
+				spare = x.spare
 			case anil:
 			default:
 				return aunk{"append to " + describeAval(x)}
@@ -968,15 +970,28 @@ func (e *absEnv) doCall(fr *absFrame, c *ssa.CallCommon, depth int) aval {
 			if len(c.Args) > 1 {
 				switch y := e.val(fr, c.Args[1]).(type) {
 				case avals:
+					// the values first (the source may share the array that is about to be overwritten)
+					var fresh []*aobj
 					for _, cl := range y.cells {
-						cells = append(cells, newVals([]aval{e.cellVal(cl)}, elem).cells...)
+						fresh = append(fresh, newVals([]aval{e.cellVal(cl)}, elem).cells...)
+					}
+					for _, nc := range fresh {
+						if len(spare) > 0 {
+							// room left in the backing array: the element is written in place
+							old := spare[0]
+							spare = spare[1:]
+							old.f, old.in, old.typ = nc.f, nc.in, nc.typ
+							cells = append(cells, old)
+						} else {
+							cells = append(cells, nc)
+						}
 					}
 				case anil:
 				default:
 					return aunk{"append of " + describeAval(y)}
 				}
 			}
-			return avals{cells}
+			return avals{cells: cells, spare: spare}
 		case "min", "max":
 			// integer min/max over ordered symbols
 			vals := make([]aval, len(c.Args))
